@@ -459,8 +459,11 @@ class Threads:
         if ch.flag("cfg.hotzone", 0.35):
             # converters are class-level singletons shared by all instances (the property's own anchor): stall
             # tasks inside them so that another task runs through the same converter meanwhile
-            self.sim.hot_files = ("ofxtools/Types.py", "functools.py")
-            self.sim.hot_k = [25, 60, 12][ch.pick("cfg.hotzone.k", 3)]
+            zone = ch.weighted("cfg.hotzone.files", [4, 2, 1])
+            self.sim.hot_files = [("ofxtools/Types.py", "functools.py"),
+                                  ("ofxtools/Types.py", "functools.py", "ofxtools/utils.py", "ofxtools/header.py"),
+                                  ("ofxtools/models/base.py",)][zone]
+            self.sim.hot_k = [25, 60, 12][ch.pick("cfg.hotzone.k", 3)] * (20 if zone == 2 else 1)
             self.sim.hot_salt = ch.pick("cfg.hotzone.salt", 1 << 20)
             self.sim.count("probe.hotzone_runs")
         self.violations = []
